@@ -11,6 +11,7 @@
 //!   q n=<node> ent=<i> [alias=<name>]   node 0 is the root selection
 //!   qs n=<node> key=<name> f=<j|id>
 //!   qe n=<node> key=<name> f=<j> child=<m>
+//!   qg n=<node> key=<name> fn=<count|min|max> f=<j>      aggregate (grouped by the scalar selections of the node)
 //!   qf n=<node> name=<name> sel=<0|1> f=<j> op=<eq|ne|lt|le|gt|ge> v=<Val> [var=1]
 //!   qo n=<node> name=<name> sel=<0|1> f=<j> dir=<asc|desc>
 //!   ql n=<node> first=<k> skip=<k>
@@ -54,6 +55,7 @@ pub enum SelItem {
     Scalar(String, usize),
     Id(String),
     Sub(String, usize, usize), // key, field, child node
+    Agg(String, String, usize), // key, count|min|max, field
 }
 
 #[derive(Default)]
@@ -203,6 +205,7 @@ impl Case {
                     fields.push(if *key == fname { fname } else { format!("{}: {}", key, fname) });
                 }
                 SelItem::Id(key) => fields.push(if key == "id" { "id".into() } else { format!("{}: id", key) }),
+                SelItem::Agg(key, fun, f) => fields.push(if fun == "count" { format!("{}: count()", key) } else { format!("{}: {}(f{})", key, fun, f) }),
                 SelItem::Sub(key, f, child) => {
                     fields.push(self.node_text(*child, Some((key, *f)), p, pc, None)?);
                 }
@@ -243,7 +246,7 @@ impl Case {
         let mut parts = vec![];
         for s in &node.sels {
             match s {
-                SelItem::Scalar(key, _) => {
+                SelItem::Scalar(key, _) | SelItem::Agg(key, _, _) => {
                     parts.push(format!("{}={}", key, row.get(key).map(|x| self.canon_val(x)).unwrap_or("absent".into())));
                 }
                 SelItem::Id(key) => {
@@ -286,7 +289,7 @@ impl Case {
         let visible: Vec<String> = node
             .orders
             .iter()
-            .filter(|(name, _, _, _)| node.sels.iter().any(|s| matches!(s, SelItem::Scalar(k, _) if k == name)))
+            .filter(|(name, _, _, _)| node.sels.iter().any(|s| matches!(s, SelItem::Scalar(k, _) | SelItem::Agg(k, _, _) if k == name)))
             .map(|(name, _, _, _)| name.clone())
             .collect();
         let rows: Vec<(Vec<String>, String)> = items
@@ -497,6 +500,13 @@ pub fn step(c: &mut Case, kind: &str, kv: &HashMap<String, String>, stats: &mut 
                     }
                 };
                 c.nodes.get_mut(&n).unwrap().sels.push(item);
+                "ok".into()
+            }
+            _ => "bad-op".into(),
+        },
+        "qg" => match (num("n"), kv.get("key"), kv.get("fn"), num("f")) {
+            (Some(n), Some(key), Some(fun), Some(f)) if c.nodes.contains_key(&n) && ["count", "min", "max"].contains(&fun.as_str()) => {
+                c.nodes.get_mut(&n).unwrap().sels.push(SelItem::Agg(key.clone(), fun.clone(), f));
                 "ok".into()
             }
             _ => "bad-op".into(),
